@@ -286,6 +286,7 @@ def check_meta_callback(ip, frame, env):
 @contract('connection.FragmentSender.build', props=['C06', 'C05'])
 class _:
     hooks = {'model:connection.FragmentSender.callback': callback_recorder}
+    cvc5_first = ['split-loop:preserved/pieces-plus-rest-are-the-payload']       # z3's sequence solver needs > 60 s, cvc5 seconds
     def setup(E):
         set_limits(E)
         self = E.obj(FS, tag='self', conn=None, frag_id=E.int('frag_id', cls=SEQ, lo=1, hi=S.M), retry=E.enum(RETRY, 'retry'),
